@@ -553,6 +553,7 @@ class Emitter:
         self.tmp = 0
         self.depth = 0
         self.inputs = set()
+        self.reads_as_inputs = False
         self.kinds = {}               # local variable -> "State" / "Command": which Terminal impl a get / set on it means
         self.expected_kind = None
         self.dispatch = None          # e.g. "State": which of several impls of one trait for the same type is meant
@@ -757,14 +758,29 @@ class Emitter:
             return [self.subst_ident(x, name, repl) for x in ast]
         return ast
 
+    def hint_for(self, recv):
+        """the type on which a method call is resolved: the declared type of a field of self, self's own type, or a local's name"""
+        if recv[0] == "field" and recv[1] == ("path", ["self"]):
+            st = self.enums.get("__structs__", {}).get((self.self_key or "").split("<")[0], {})
+            return st.get(recv[2])
+        if recv == ("path", ["self"]):
+            return self.self_key
+        if recv[0] == "path" and len(recv[1]) == 1:
+            return recv[1][0]
+        return None
+
     def alias_place(self, e):
         """`let x = recv.f()` where f's body is just `&self.a.b` / `&mut self.a.b`: x is an alias of that place"""
         if e[0] != "mcall" or e[3]:
             return None
         recv, name = e[1], e[2]
+        while recv[0] == "mcall" and recv[2] in ("borrow", "borrow_mut") and not recv[3]:
+            recv = recv[1]
         try:
-            kf = self.find_fn(name, 0, self.self_key if recv == ("path", ["self"]) else None)
+            kf = self.find_fn(name, 0, self.hint_for(recv))
         except ParseError:
+            if name.endswith("_ref") or name.endswith("_mut"):
+                raise           # an accessor returning a reference must be resolved: a copy would lose writes through it
             return None
         body = parse_fn(kf[1]["toks"])
         if body[1] or body[2] is None or body[2][0] != "unary" or body[2][1] != "&":
@@ -882,6 +898,13 @@ class Emitter:
             if name == "get" and not args and recv[0] == "mcall" and recv[2] == "borrow" and self.is_terminal(recv[1]):
                 # a terminal of the device itself: its Getter<State> / Getter<Command> impl, selected by the annotated type
                 if not self.expected_kind: raise ParseError("read of a terminal without a type annotation")
+                if self.reads_as_inputs:
+                    # device logic and terminal logic are proved separately: what the terminal reads here is an input
+                    # (Terminal::get itself is translated and proved in C09Streams)
+                    x = recv[1]
+                    nm = "get:%s:%s" % (x[2] if x[0] == "field" else x[1][0], self.expected_kind)
+                    self.inputs.add(nm[4:])
+                    return "(EVar %s)" % qs(nm)
                 old = self.dispatch; self.dispatch = self.expected_kind
                 try:
                     cands = [(kk, f) for (kk, fname), lst in self.fns.items() if kk == "Terminal" and fname == "get"
